@@ -18,6 +18,7 @@ import zoo
 from koala.flux_finder import flux_finder as ff
 from koala.lattice import INVALID
 import translate
+from props.c01 import min_gap, GAP_MIN
 
 
 def cases_for(ctx, rng):
@@ -39,6 +40,8 @@ def cases_for(ctx, rng):
         except Exception as ex:
             ctx.impl_violation(f"{name}: plaquettes raised {type(ex).__name__}", dict(case=name, lattice=zoo.lat_to_json(l)))
             continue
+        if min_gap(l) < GAP_MIN:
+            ctx.count("precondition_excluded_nongeneric"); continue          # the plaquettes themselves depend on a tie-break (C01's genericity margin)
         out.append((name, fam, l))
     return out
 
@@ -125,7 +128,7 @@ def run(ctx):
                 if not oracle(ctx, name, l, u, fl):
                     break
                 lab = ff.fluxes_to_labels(fl)
-                if [int(x) for x in lab] != [(1 - x) // 2 for x in mf] or lab.dtype != np.int8:
+                if [int(x) for x in lab] != [(1 - int(x)) // 2 for x in fl] or lab.dtype != np.int8:
                     ctx.impl_violation(f"{name}: fluxes_to_labels does not map +1->0, -1->1", dict(case=name, fluxes=[int(x) for x in fl], labels=[int(x) for x in lab]))
                     break
             else:
